@@ -110,6 +110,9 @@ func (op M2r) Op_instruction_verilog_footer(arch *Arch, flavor string) string {
 	ramAddr := ""
 	if arch.HasAny([]string{"r2mri", "r2m"}) {
 		ramAddr += "addr_ram_to_mem"
+	} else {
+		// No RAM-writing opcode: the address mux still needs a last alternative
+		ramAddr += strconv.Itoa(int(arch.L)) + "'d0"
 	}
 
 	if arch.HasOp("m2r") {
